@@ -42,6 +42,10 @@ def shards(tier):
     return 4 if tier == "quick" else 8
 
 
+# generous per-shard caps: expiry means INCONCLUSIVE, never a verdict (the box is shared and can be 10x slow)
+TIMEOUT = {"quick": 900, "thorough": 3000}
+
+
 # --------------------------------------------------------------------------
 # generated moduli files + independent reference
 # --------------------------------------------------------------------------
@@ -338,7 +342,9 @@ def session_sample(ctx, rng, n, tmpdir):
             info[KexGexSHA256.name] = ClientGex
             pair.tc._kex_info = info
             pair.tc.get_security_options().kex = [KexGexSHA256.name]
-            ok = pair.start(timeout=60)
+            for t in (pair.tc, pair.ts):  # library-internal clocks: generous, the box may be 10x slow
+                t.banner_timeout = t.handshake_timeout = t.auth_timeout = 600
+            ok = pair.start(timeout=600)
             reqs = pair.msgs("c", "out", (34,))
             grps = pair.msgs("s", "out", (31,))
             pair.close()
@@ -376,7 +382,7 @@ def run(ctx):
     ctx.note("contract_backend", gacontract.BACKEND)
     tmpdir = tempfile.mkdtemp(prefix="vf-c43-")
     try:
-        nfiles = ctx.pick(500, 6000)
+        nfiles = ctx.pick(500, 4000)
         for fileno in range(nfiles):
             run_file(ctx, rng, tmpdir, ctx.pick(30, 40), fileno)
         session_sample(ctx, rng, ctx.pick(3, 12), tmpdir)
